@@ -48,6 +48,7 @@ def tainted(text, needles):
 def _history(args):
     wid, seed, nreq = args
     common.scratch()
+    S.bound_rsa()          # damaged frames may ask for absurd RSA key sizes
     r = random.Random(seed)
     intern = A.Interner()
     rsa = E.rsa_pair()
